@@ -618,6 +618,7 @@ func (h *Hist) Restart() {
 	w.Restart()
 	after := w.TableDigest("headers")
 	h.nRestart++
+	r.Fault("restart")
 	r.Logf("restart")
 	if before != after {
 		r.Fail("C05", "restart-modified", "plain-restart", "restart on an existing database modified the headers table")
